@@ -100,7 +100,7 @@ pub fn run_c13(cfg: &RunCfg, trace: bool) -> RunOut {
     if cx.out.violations.is_empty() && cfg.seed % 4 == 0 && !matches!(cfg.specs[0], crate::stack::Spec::Emb) {
         use crate::asyncsim::*;
         if let Ok(ab) = abuild(&cfg.specs[0], crate::rng::mix(cfg.order_seed, 0), cfg.permute, crate::rng::mix(cfg.seed, 0xA5), 40) {
-            let mut ax = AExec { root: ab.root.clone(), slots: Default::default() };
+            let mut ax = AExec { root: ab.root.clone(), slots: Default::default(), others: vec![] };
             ab.ctl.on.store(true, Ordering::SeqCst);
             cx.out.count("probe.c13.async_runs");
             if let Some(plan) = &cfg.fault {
